@@ -431,7 +431,7 @@ def gen_C13(w, tier):
         scal = list(range(-q, 2 * q + 1)) if (q <= 30 or big) else [-q, -1, 0, 1, q - 1, q, q + 1, 2 * q]
         if len(scal) > 40 and not big:
             scal = r.sample(scal, 40) + [-q, -1, 0, q, 2 * q]
-        laws(ps, name, all_elems, scal, 200 if not big else 3000, 60 if not big else 2000, ("toy-exhaustive", "set:toy" + ps.kind))
+        laws(ps, name, all_elems, scal, 200 if not big else 1200, 60 if not big else 600, ("toy-exhaustive", "set:toy" + ps.kind))
     # shipped groups: edge operands
     for name in ("ed", "1024", "2048", "3072"):
         ps = w.gs[name]
